@@ -606,6 +606,16 @@ func TestC19(t *testing.T) {
 	n := enumC19(L, r.mine, func(c C19Case) { evalCase(r, "enum-sequences", c, checkC19) })
 	r.exhaustive(fmt.Sprintf("every sequence of up to %d settings over {max retries, wait, batch concurrency, batch error handling} x 3 values x {constructor option, builder method, option applied to the embedded BaseNode later}, for NewNode and NewBatchNode: %d cases, each compared with its all-option and all-builder realisation", L, n))
 	rapidPart(r, "rand-sequences", r.pick(3000, 50000), genC19, checkC19)
+	// "a pool size <= 0 means one worker"
+	for i, size := range []int{0, -1, -7} {
+		if r.mine(i) {
+			sc := PoolSc{Size: size, Rounds: []PoolRound{{Submitters: []int{7}}}, Gated: true, Sched: []int{0, 1, 0}}
+			evalCase(r, "pool-default-size", sc, checkPool("C19"))
+		}
+	}
 }
 
-func init() { registerReplay("C19", checkC19) }
+func init() {
+	registerReplay("C19", checkC19)
+	registerReplaySub("C19", "pool-default-size", checkPool("C19"))
+}
